@@ -402,7 +402,9 @@ def configs(ctx):
                             continue
                         bound = (2 if two else None) if n == 2 else 3
                         if q and script in ("solve-push-solve", "push-is_sat-pop-solve", "push-pop0-solve", "is_sat-push-pop-solve"):
-                            bound = 1          # three solves per run: 16 times more schedules than one solve
+                            bound = 1
+                        if script == "solve+values12":
+                            bound = 1 if q else 2      # (a dozen request / answer pairs: bounded by preemptions)          # three solves per run: 16 times more schedules than one solve
                         if not q and two:
                             bound = 3 if script == "solve-twice" else 2
                         out.append((behs, script, eoe, unsat, bound, ctx.seed))
